@@ -10,3 +10,10 @@ package share
 //@   property C01
 //@   ensures axisType == rsmt2d.Row ==> result == r.RowRoots[rowIdx]
 //@   ensures axisType != rsmt2d.Row ==> result == r.ColumnRoots[colIdx]
+
+// A-RS: the erasure-coded extension of a row half is a function of that half (rsmt2d codec, assumed).
+//@ pure func extendedOf(s []libshare.Share) []libshare.Share
+//@ func ExtendShares
+//@   property C01
+//@   trusted
+//@   ensures err == nil ==> result == extendedOf(original) && len(result) == 2*len(original)
